@@ -124,6 +124,17 @@ func (r *Run) Thorough() bool { return r.Tier == "thorough" }
 // Mine reports whether case index i belongs to this shard.
 func (r *Run) Mine(i int) bool { return r.Shards <= 1 || i%r.Shards == r.Shard }
 
+// MineKey shards by a hash of the case key, so that equal cases always land
+// in the same shard and distinct counts add up exactly across shards.
+func (r *Run) MineKey(key string) bool {
+	if r.Shards <= 1 {
+		return true
+	}
+	h := fnv.New32a()
+	h.Write([]byte(key))
+	return int(h.Sum32()%uint32(r.Shards)) == r.Shard
+}
+
 // OverBudget reports whether the internal wall-clock budget is used up; the
 // caller must then stop enumerating and call Capped.
 func (r *Run) OverBudget() bool {
